@@ -27,6 +27,32 @@ ASSUMPTIONS = ["malloc/realloc/strdup succeed (allocation failure is property C0
 TRUSTED = ["harness/jtree.h (tree builder / dumper)", "ASan allocator statistics (__sanitizer_get_current_allocated_bytes) for the leak clause",
            "glibc strtoull, strstr, memmove, strdup"]
 
+MANIFEST = dict(
+   text="Lean 4 theorems over a value-level model of json_patch.c (json_patch_apply, test / remove / add_replace / move_copy, the two array "
+        "callbacks) and of the json_pointer.c functions it calls (json_pointer_get_internal, json_pointer_set_with_array_cb: C-string token "
+        "split, two-pass unescape, is_valid_index with strtoull saturation, locate-then-mutate through the found location), against an "
+        "RFC 6902 / RFC 6901 specification written from the RFC texts: for every document, every value as patch document, both calling "
+        "conventions and every behaviour of the serializer / equality parameters the call never faults (patch_no_fault) and never changes "
+        "the patch (patch_doc_unchanged); for every well-formed operation list of any length it yields exactly the document sequential "
+        "RFC 6902 evaluation yields or fails reporting exactly the index of the first operation the RFC makes fail, provided no recorded "
+        "known-finding clause fired (patch_eq_rfc_partial, by refinement of each operation and induction over the list; decide-checked "
+        "counter-examples show the unrestricted statement false for each clause); every element that is not an operation object "
+        "(not an object, op/path missing, null, ill-typed or unknown, value/from missing, null or ill-typed) makes the call fail at or before "
+        "that element (patch_malformed_safe). Tied to the code by literals and structural facts regenerated from json_patch.c / "
+        "json_pointer.c on every run (source_facts) and by a differential run of model, spec and the ASan/UBSan-built implementation on "
+        "generated (document, patch) pairs, which also checks the heap-level clauses: patch and copy_from dumps unchanged, no json_object "
+        "node reachable twice (patch/result/copy_from), no heap bytes left allocated.",
+   note="Trusted: Lean kernel + propext/Classical.choice/Quot.sound; tools/extract; the differential harness (jtree.h builder/dumper, ASan "
+        "allocator statistics for the leak clause); glibc strtoull/strstr/memmove. Value-level model: the in-place mutation through a found "
+        "pointer is modelled as an update at the found location, exact for tree-shaped documents (the sharing clause is checked by the harness "
+        "on every case, not proved). json_object_equal / json_object_to_json_string / deep copy are parameters (C09, C02); allocation failure is C08. "
+        "On failure json-c leaves the document half-applied (json_patch.h: modified in place): theorems speak about the result on success and the "
+        "fact and index of failure. Known findings C13-null-root, C13-tilde-lenient, C13-cstr-truncation, C13-test-int-vs-double are excluded by the "
+        "'no tag fired' hypothesis. Arrays are assumed shorter than 2^32 (uint32_t index_in_parent). The model is hand-written: theorems are about "
+        "the model, the correspondence run is testing.",
+   technique="Lean 4 proof (refinement of a checked model against an RFC specification, induction over operation lists) + model/implementation correspondence run",
+   design="6/C13")
+
 # Genuine deviations from RFC 6902 that are recorded rather than repaired (main session's disposition);
 # each is a tagged clause of the model.  To be merged into /verif/KNOWN_FINDINGS.json.
 KNOWN = [
